@@ -267,6 +267,11 @@ var csvEncSig = map[string]string{
 
 // c07CSV checks the CSV column tables; returns the fields handled by encoder and decoder.
 func c07CSV(c *Ctx, res *types.Named) (encF, decF map[string]bool) {
+	withInline(func() { encF, decF = c07CSVIn(c, res) })
+	return
+}
+
+func c07CSVIn(c *Ctx, res *types.Named) (encF, decF map[string]bool) {
 	encF, decF = map[string]bool{}, map[string]bool{}
 	const rCol = "CSV column i is computed from field Fi with the frozen conversion for its type, and the decoder assigns rec[i] to the same Fi through the inverse conversion (sufficient bit size, StdEncoding on both sides), propagating parse errors"
 	encOuter := c.P.Func("lib", "NewCSVEncoder")
@@ -284,7 +289,7 @@ func c07CSV(c *Ctx, res *types.Named) (encF, decF map[string]bool) {
 		ftype[stt.Field(k).Name()] = stt.Field(k).Type()
 	}
 	// encoder columns
-	writes := callsNamed(enc, "(*encoding/csv.Writer).Write")
+	writes := callsNamedI(enc, "(*encoding/csv.Writer).Write")
 	if len(writes) != 1 {
 		c.Undecided("csv-column:lib", rCol, fmt.Sprintf("%d csv.Writer.Write calls in the CSV encoder (hand-rolled or multi-record encoder is not a recognised shape)", len(writes)), c.fnAt(enc))
 		return
@@ -345,7 +350,7 @@ func c07CSV(c *Ctx, res *types.Named) (encF, decF map[string]bool) {
 
 	// decoder
 	var rec ssa.Value
-	eachInstr(dec, func(i ssa.Instruction) {
+	eachInstrI(dec, func(i ssa.Instruction) {
 		if call, ok := i.(*ssa.Call); ok && callName(&call.Call) == "(*encoding/csv.Reader).Read" {
 			for _, r := range refs(call) {
 				if ex, ok := r.(*ssa.Extract); ok && ex.Index == 0 {
@@ -359,7 +364,7 @@ func c07CSV(c *Ctx, res *types.Named) (encF, decF map[string]bool) {
 		return
 	}
 	colLoads := map[int]*ssa.UnOp{}
-	for _, r := range refs(rec) {
+	for _, r := range refsI(rec) {
 		ia, ok := r.(*ssa.IndexAddr)
 		if !ok {
 			continue
@@ -383,9 +388,9 @@ func c07CSV(c *Ctx, res *types.Named) (encF, decF map[string]bool) {
 		st    *ssa.Store
 	}
 	var stores []fstore
-	eachInstr(dec, func(i ssa.Instruction) {
+	eachInstrI(dec, func(i ssa.Instruction) {
 		if st, ok := i.(*ssa.Store); ok {
-			if fa, ok := st.Addr.(*ssa.FieldAddr); ok && fa.X == ssa.Value(dec.Params[0]) {
+			if fa, ok := st.Addr.(*ssa.FieldAddr); ok && rootVal(fa.X) == ssa.Value(dec.Params[0]) {
 				stores = append(stores, fstore{fieldName(fa.X.Type(), fa.Field), st})
 			}
 		}
@@ -399,7 +404,7 @@ func c07CSV(c *Ctx, res *types.Named) (encF, decF map[string]bool) {
 		}
 		// all loads of rec[i]
 		var loads []ssa.Value
-		for _, r := range refs(rec) {
+		for _, r := range refsI(rec) {
 			if ia, ok := r.(*ssa.IndexAddr); ok {
 				if idx, ok := constInt(ia.Index); ok && int(idx) == i {
 					for _, rr := range refs(ia) {
